@@ -25,6 +25,44 @@ use verif_common::*;
 
 static TIMEOUTS: AtomicU32 = AtomicU32::new(0);
 
+type Job = (Vec<String>, usize, String);
+type Reply = Result<(usize, Vec<String>), String>;
+
+/// Watchdog: `Line::truncate` runs on a worker thread; the main thread waits at most 5 s for the answer.
+struct Worker {
+    jobs: std::sync::mpsc::Sender<Job>,
+    results: std::sync::mpsc::Receiver<Reply>,
+}
+
+impl Worker {
+    fn spawn() -> Worker {
+        let (jobs, job_rx) = std::sync::mpsc::channel::<Job>();
+        let (res_tx, results) = std::sync::mpsc::channel::<Reply>();
+        std::thread::spawn(move || {
+            while let Ok((items, width, delim)) = job_rx.recv() {
+                let r = catch(|| {
+                    let mut line = Line::default();
+                    for i in &items {
+                        line = line.item(i.as_str());
+                    }
+                    Line::truncate(&mut line, width, &delim);
+                    let w = Line::width(&line);
+                    let out: Vec<String> = line.into_iter().map(|l| l.content().to_owned()).collect();
+                    (w, out)
+                });
+                if res_tx.send(r).is_err() {
+                    break;
+                }
+            }
+        });
+        Worker { jobs, results }
+    }
+}
+
+thread_local! {
+    static WORKER: std::cell::RefCell<Option<Worker>> = const { std::cell::RefCell::new(None) };
+}
+
 /// One measured cluster.
 #[derive(Clone)]
 struct G {
@@ -189,22 +227,21 @@ fn run_case(input: &str) -> Outcome {
                 return Outcome::new("not-run").tag("line-not-run").trivial();
             }
             let total: usize = items.iter().map(|i| Cell::width(i.as_str())).sum();
-            let (tx, rx) = std::sync::mpsc::channel();
-            let (items2, delim2) = (items.clone(), delim.clone());
-            std::thread::spawn(move || {
-                let r = catch(|| {
-                    let mut line = Line::default();
-                    for i in &items2 {
-                        line = line.item(i.as_str());
-                    }
-                    Line::truncate(&mut line, width, &delim2);
-                    let w = Line::width(&line);
-                    let out: Vec<String> = line.into_iter().map(|l| l.content().to_owned()).collect();
-                    (w, out)
-                });
-                tx.send(r).ok();
+            let reply = WORKER.with(|w| {
+                let mut w = w.borrow_mut();
+                if w.is_none() {
+                    *w = Some(Worker::spawn());
+                }
+                let worker = w.as_ref().unwrap();
+                worker.jobs.send((items.clone(), width, delim.clone())).expect("worker alive");
+                let r = worker.results.recv_timeout(Duration::from_secs(5));
+                if r.is_err() {
+                    // The worker is stuck in `Line::truncate`: abandon it (it keeps spinning) and start afresh.
+                    *w = None;
+                }
+                r
             });
-            match rx.recv_timeout(Duration::from_secs(5)) {
+            match reply {
                 Err(_) => {
                     TIMEOUTS.fetch_add(1, Ordering::SeqCst);
                     Outcome::new("timeout").tag("line-timeout").violation(
